@@ -34,6 +34,11 @@ Section Symbols.
   Definition poly_sym (a : list K) (d : list K) : K :=
     fsum (imap (fun j aj => fsum (map (fun x => aj * fpow x j) d)) a).
 
+  (* coefficient coercions done by the constructors: scalar -> constant vector, vector -> diagonal matrix *)
+  Definition const_vec (c : K) (d : list K) : list K := map (fun _ => c) d.
+  Definition diag_row (n i : nat) (x : K) : list K := map (fun j => if Nat.eqb i j then x else 0) (seq 0 n).
+  Definition diag_mat (v : list K) : list (list K) := imap (fun i x => diag_row (length v) i x) v.
+
   (* ---- linear steppers ---- *)
   Definition sym_advection (v : list K) (d : list K) : K := - gip_sym v 1 d.
   (* full matrix A (list of rows): sum_ij A_ij d_i d_j *)
